@@ -54,6 +54,9 @@ enum Ev {
     /// acceptable: neither delivered nor confirmed
     UnsFlags(bool, bool),
     Silence,
+    /// the connection is lost and re-established (driven with no task outstanding only): what was
+    /// received on the old connection no longer counts as "already received"
+    Reconnect,
 }
 
 fn alphabet() -> Vec<Ev> {
@@ -87,6 +90,7 @@ fn alphabet() -> Vec<Ev> {
         s(true, true, true, 0, false, Body::Ideal, app::iin2::PARAMETER_ERROR),
         Ev::Sol { fir: true, fin: true, con: false, uns: true, dseq: 0, foreign: false, body: Body::Ideal, iin2: 0 },
         Ev::Silence,
+        Ev::Reconnect,
     ]
 }
 
@@ -202,6 +206,7 @@ impl Scenario for C15 {
         let mut integrity_done = self.kind != Kind::Integrity;
         let mut useq: u8 = 0;
         let mut last_unsol: Option<Vec<u8>> = None;
+        let mut last_unsol_sent: Option<Vec<u8>> = None;
         let mut n_value: u8 = 0;
         let mut accepted_total = 0usize;
 
@@ -251,6 +256,14 @@ impl Scenario for C15 {
                     }
                     sim.advance(RT);
                 }
+                Ev::Reconnect => {
+                    if self.kind == Kind::Idle && out.is_none() {
+                        sim.disconnect();
+                        sim.advance(1500);
+                        sim.connect();
+                        last_unsol = None;
+                    }
+                }
                 Ev::UnsMalformed => {
                     useq = (useq + 1) & 0x0F;
                     let frag = app::response(app::ctrl(true, true, true, true, useq), fc::UNSOLICITED_RESPONSE, 0, 0, &[30, 1, 0x00, 0, 0, 0x01, 0x02]);
@@ -278,8 +291,8 @@ impl Scenario for C15 {
                     sent = Some(frag);
                 }
                 Ev::Uns { data, con, dup, foreign } => {
-                    let frag = if *dup && last_unsol.is_some() {
-                        last_unsol.clone().unwrap()
+                    let frag = if *dup && last_unsol_sent.is_some() {
+                        last_unsol_sent.clone().unwrap()
                     } else {
                         useq = (useq + 1) & 0x0F;
                         let objs = if *data { measurement_objects(n_value) } else { vec![] };
@@ -297,6 +310,7 @@ impl Scenario for C15 {
                                 exp.confirms.push((true, frag[0] & 0x0F));
                             }
                             last_unsol = Some(frag.clone());
+                            last_unsol_sent = Some(frag.clone());
                         }
                     }
                     if *foreign {
@@ -551,6 +565,7 @@ impl Scenario for C15 {
 fn short(ev: &Ev) -> String {
     match ev {
         Ev::Silence => "silence".into(),
+        Ev::Reconnect => "reconnect".into(),
         Ev::UnsMalformed => "uns-malformed".into(),
         Ev::UnsSameSeq => "uns-same-seq-new-contents".into(),
         Ev::UnsFlags(fir, fin) => format!("uns-fir{}fin{}", *fir as u8, *fin as u8),
